@@ -1,32 +1,25 @@
 (* str_location: the rendering has the documented shape and names the location faithfully - begin and end can be read back from it. *)
 From Coq Require Import List Bool Arith Lia.
 Import ListNotations.
-Require Import Loc.
-Definition head_of (b : pos) : list tok := [TFile (pfile b); TColon; TNum (pline b); TColon; TNum (pcol b)].
-(* the documented shape: file:line:col, then the part of the end position from the first component that differs on *)
-Definition shape (b e : pos) : list tok :=
-  head_of b ++
-  (if negb (pfile b =? pfile e) then [TDash; TFile (pfile e); TColon; TNum (pline e); TColon; TNum (pcol e)]
-   else if negb (pline b =? pline e) then [TDash; TNum (pline e); TColon; TNum (pcol e)]
-   else if negb (pcol b =? pcol e) then [TDash; TNum (pcol e)]
-   else []).
-Theorem str_location_shape b e : str_location b e = shape b e.
+Require Import GenPrelude FromLoc Loc.
+Theorem str_location_shape b e : str_location b e = loc_shape b e.
 Proof.
-  unfold str_location, shape, head_of.
+  (* leaf lemma over the regenerated function: the three comparisons decide everything *)
+  unfold str_location, str_location_gen, loc_shape, head_of.
   destruct (pfile b =? pfile e) eqn:F; destruct (pline b =? pline e) eqn:L; destruct (pcol b =? pcol e) eqn:C; reflexivity.
 Qed.
 (* reading the end position back *)
 Definition read_back (l : list tok) : option (pos * pos) :=
   match l with
-  | [TFile f; TColon; TNum l1; TColon; TNum c1] => Some (Build_pos f l1 c1, Build_pos f l1 c1)
-  | [TFile f; TColon; TNum l1; TColon; TNum c1; TDash; TNum c2] => Some (Build_pos f l1 c1, Build_pos f l1 c2)
-  | [TFile f; TColon; TNum l1; TColon; TNum c1; TDash; TNum l2; TColon; TNum c2] => Some (Build_pos f l1 c1, Build_pos f l2 c2)
-  | [TFile f; TColon; TNum l1; TColon; TNum c1; TDash; TFile f2; TColon; TNum l2; TColon; TNum c2] => Some (Build_pos f l1 c1, Build_pos f2 l2 c2)
+  | [LFile f; LColon; LNum l1; LColon; LNum c1] => Some (Build_pos f l1 c1, Build_pos f l1 c1)
+  | [LFile f; LColon; LNum l1; LColon; LNum c1; LDash; LNum c2] => Some (Build_pos f l1 c1, Build_pos f l1 c2)
+  | [LFile f; LColon; LNum l1; LColon; LNum c1; LDash; LNum l2; LColon; LNum c2] => Some (Build_pos f l1 c1, Build_pos f l2 c2)
+  | [LFile f; LColon; LNum l1; LColon; LNum c1; LDash; LFile f2; LColon; LNum l2; LColon; LNum c2] => Some (Build_pos f l1 c1, Build_pos f2 l2 c2)
   | _ => None
   end.
 Theorem str_location_faithful b e : read_back (str_location b e) = Some (b, e).
 Proof.
-  rewrite str_location_shape. unfold shape, head_of. destruct b as [f l c], e as [f2 l2 c2]. cbn [pfile pline pcol].
+  rewrite str_location_shape. unfold loc_shape, head_of. destruct b as [f l c], e as [f2 l2 c2]. cbn [pfile pline pcol].
   destruct (f =? f2) eqn:F; cbn [negb app read_back]; [|reflexivity].
   apply Nat.eqb_eq in F. subst f2.
   destruct (l =? l2) eqn:L; cbn [negb app read_back]; [|reflexivity].
